@@ -764,6 +764,247 @@ def judge_c16_group(cases, lab):
     return [(c, out[id(c)]) for c in cases]
 
 
+# -- C19 ---------------------------------------------------------------------------------------
+def _make_class(case, g, lab):
+    root = case["nodes"][-1]
+    names = root["names"]
+    members = [g.obj[m] for m in root["ms"]]
+    base_ns = {"__annotations__": {names[0]: object}, names[0]: members[0]}
+    Base = lab.datasetclass(type("Base", (), base_ns))
+    n_defined = len(g.log)
+    # the parent dataset class is used before the child that inherits from it is defined
+    try:
+        Base.explain({})
+        Base.keys({})
+        Base({})
+    except Exception:  # noqa
+        pass
+    ns = {"__annotations__": {n: object for n in names[1:]}}
+    for n, m in zip(names[1:], members[1:]):
+        # a constant member is given as a plain value, everything else as the evaluatable
+        nd = case["nodes"][root["ms"][names.index(n)] - 1]
+        ns[n] = dec(nd["v"]) if nd["k"] == "val" else m
+    ns["__annotations__"]["konst"] = int
+    ns["konst"] = 42
+    n_used = len(g.log)
+    C = lab.datasetclass(type("C", (Base,), ns))
+    # what ran while the parent was USED is not construction; drop it from the log
+    del g.log[n_defined:n_used]
+    return C
+
+
+def judge_c19_group(cases, lab):
+    out = {id(c): Result() for c in cases}
+    cases = [c for c in cases if c["nodes"][-1]["k"] == "coll" and c["nodes"][-1]["c"] == "dict"]
+    insts = []
+    if not cases:
+        return []
+    g = _fresh(cases[0], lab)
+    try:
+        cls = _make_class(cases[0], g, lab)   # ONE class per graph: instances of it are compared
+    except Exception as e:  # noqa
+        out[id(cases[0])].bad("class-definition", "defining the dataset class raised %s: %s" % (type(e).__name__, e))
+        return [(c, out[id(c)]) for c in cases]
+    if g.log:
+        out[id(cases[0])].bad("construction-runs", "defining the class ran %s" % [(e[0], e[1]) for e in g.log][:3])
+    for c in cases:
+        res = out[id(c)]
+        a = c["a"]
+        o = dec(a["o"])
+        names = c["nodes"][-1]["names"]
+        # class-level calls = the union over members (the specification's dict collection)
+        for what, key in (("keys", "keys"), ("explain", "explain")):
+            fn = getattr(cls, what)
+            got = observe.call(lambda: set(fn(copy.deepcopy(o))), lab)
+            exp = a[key]
+            if exp["ok"]:
+                if not got["ok"] or got["v"] != keyset(exp["ks"]):
+                    res.bad("class-" + what, "class %s() = %s, union over the members = %s" % (what, observe.describe(got), sorted(keyset(exp["ks"]))))
+            elif got["ok"]:
+                res.bad("class-" + what, "class %s() succeeded with %s, a member fails with %s" % (what, sorted(got["v"]), exp["cls"]))
+        gotv = observe.call(lambda: cls.validate(copy.deepcopy(o)), lab)
+        if gotv["ok"] != a["validate"]["ok"]:
+            res.bad("class-validate", "class validate(): %s, members: %s" % (observe.describe(gotv), "ok" if a["validate"]["ok"] else a["validate"]["cls"]))
+        inst = observe.call(lambda: cls(copy.deepcopy(o)), lab, forced=False)
+        exp = a["eval"]
+        if not exp["ok"]:
+            if inst["ok"]:
+                res.bad("instantiate", "instantiation succeeded although member evaluation fails with %s" % exp["cls"])
+            continue
+        if not inst["ok"]:
+            res.bad("instantiate", "instantiation failed: %s" % observe.describe(inst))
+            continue
+        res.nontrivial = True
+        obj = inst["v"]
+        expd = dec(exp["v"])
+        for n in names:
+            if not strict_eq(getattr(obj, n, "<missing>"), expd[n]):
+                res.bad("attribute", "attribute %s = %s, the member evaluates to %s" % (n, show(getattr(obj, n, "<missing>")), show(expd[n])))
+        if getattr(obj, "konst", None) != 42:
+            res.bad("attribute", "plain member konst = %r, expected the constant 42" % (getattr(obj, "konst", None),))
+        if a["keys"]["ok"]:
+            r = repr(obj)
+            restricted = dec(a["restrict"])
+            for k in keyset(a["keys"]["ks"]):
+                v = restricted
+                for seg in k.split("."):
+                    v = v[seg] if isinstance(v, dict) else v[int(seg)]
+                leaf = k.split(".")[-1]
+                if repr(leaf) not in r or repr(v) not in r:
+                    res.bad("repr", "repr %s does not show key %s with its value %r" % (r, k, v))
+            insts.append((c, obj, canon_val(a["restrict"]), res))
+    for i in range(len(insts)):
+        for j in range(i + 1, len(insts)):
+            ci, oi, ri, _ = insts[i]
+            cj, oj, rj, resj = insts[j]
+            try:
+                eq = bool(oi == oj)
+            except Exception as e:  # noqa
+                resj.bad("equality", "== raised %s" % type(e).__name__)
+                continue
+            if eq != (ri == rj):
+                resj.bad("equality", "instances built from %s and %s compare %s; their options restricted to the reported keys are %s" % (
+                    dec(ci["a"]["o"]), dec(cj["a"]["o"]), "equal" if eq else "different", "equal" if ri == rj else "different"))
+    return [(c, out[id(c)]) for c in cases]
+
+
+# -- C20 ---------------------------------------------------------------------------------------
+_C20_PENDING = []
+
+
+def _plain(out):
+    """Outcome in the process-independent form the child interpreter reports."""
+    if out["ok"]:
+        return {"ok": True, "v": repr(out["v"])}
+    if out.get("cls") == "KeyNotFound":
+        return {"ok": False, "cls": "KeyNotFound", "key": out.get("key")}
+    return {"ok": False, "cls": out.get("cls")}
+
+
+def judge_c20_group(cases, lab):
+    import pickle
+
+    out = {id(c): Result() for c in cases}
+    if not cases or not any(nd["k"] in ("ds", "dsof") for nd in cases[0]["nodes"]):
+        return [(c, out[id(c)]) for c in cases]
+    style = {"picklable": True}
+    dicts = [dec(c["a"]["o"]) for c in cases]
+    ref = []
+    for c, o in zip(cases, dicts):
+        g = _fresh(c, lab, style=style)
+        e = observe.call(lambda: g.root.evaluate(copy.deepcopy(o)), lab)
+        k = observe.call(lambda: sorted(g.root.keys(copy.deepcopy(o))), lab)
+        ref.append((e, k))
+        out[id(c)].nontrivial = True
+        _cmp_outcome(out[id(c)], "original-vs-spec", e, c["a"]["eval"])
+    if any(e.get("lazy") for e, k in ref):
+        return [(c, out[id(c)]) for c in cases]
+    first = out[id(cases[0])]
+    for proto in range(pickle.HIGHEST_PROTOCOL + 1):
+        g = _fresh(cases[0], lab, style=style)
+        if proto % 2 == 1:  # warm cache: the stored entries travel with the pickle
+            observe.call(lambda: g.root.evaluate(copy.deepcopy(dicts[0])), lab)
+        try:
+            blob = pickle.dumps(g.root, protocol=proto)
+            cp = pickle.loads(blob)
+        except Exception as e:  # noqa
+            first.bad("pickle-error", "protocol %d: %s: %s" % (proto, type(e).__name__, str(e)[:200]))
+            continue
+        for c, o, (e0, k0) in zip(cases, dicts, ref):
+            e1 = observe.call(lambda: cp.evaluate(copy.deepcopy(o)), lab)
+            k1 = observe.call(lambda: sorted(cp.keys(copy.deepcopy(o))), lab)
+            if not same_outcome(e1, e0):
+                out[id(c)].bad("copy-evaluate", "protocol %d: the unpickled copy gives %s, the original %s" % (
+                    proto, observe.describe(e1), observe.describe(e0)))
+            if not same_outcome(k1, k0):
+                out[id(c)].bad("copy-keys", "protocol %d: keys() of the copy %s, of the original %s" % (
+                    proto, observe.describe(k1), observe.describe(k0)))
+        # the copy stays usable: register a further overload and evaluate through it
+        root_nd = cases[0]["nodes"][-1]
+        if root_nd["k"] == "ds" and root_nd["disp"] and proto in (0, pickle.HIGHEST_PROTOCOL):
+            from . import picklelib
+
+            try:
+                cp.register("verif-late-alias", lab.dataset(picklelib.late_impl))
+                cp.evaluate(copy.deepcopy(dicts[-1]))
+            except AttributeError as e:
+                first.bad("copy-register", "protocol %d: registering on the unpickled copy failed: %s" % (proto, e))
+            except Exception:  # noqa  (evaluation may legitimately fail for these options)
+                pass
+        if proto == pickle.HIGHEST_PROTOCOL:
+            _C20_PENDING.append((cases, blob, dicts, [(_plain(e), _plain(k)) for e, k in ref], out))
+    return [(c, out[id(c)]) for c in cases]
+
+
+def c20_fixed_probes(prop, tier, sc, rep):
+    """The two definition forms of the statement on module-level datasets (harness/picklelib.py)."""
+    import pickle
+
+    from .common import import_labrea
+
+    lab = import_labrea()
+    from . import picklelib
+
+    n = 0
+    for name in ("explicit", "decorated"):
+        ds = getattr(picklelib, name)
+        for proto in range(pickle.HIGHEST_PROTOCOL + 1):
+            n += 1
+            try:
+                cp = pickle.loads(pickle.dumps(ds, protocol=proto))
+                a, b = cp({"A": 3}), ds({"A": 3})
+                if a != b:
+                    rep.violation({"probe": name, "what": "value differs"}, {"kind": "pickle-probe", "name": name, "proto": proto})
+            except Exception as e:  # noqa
+                sig = {"class": "decorator-form-unpicklable"} if name == "decorated" and "not the same object" in str(e) \
+                    else {"probe": name, "error": type(e).__name__}
+                rep.violation(sig, {"kind": "pickle-probe", "name": name, "proto": proto, "error": "%s: %s" % (type(e).__name__, e)})
+    return 0, 0, n, 2
+
+
+def finish_chunk(prop, lab):
+    """C20: one freshly started interpreter unpickles and evaluates the graphs of this chunk."""
+    global _C20_PENDING
+    if prop != "C20" or not _C20_PENDING:
+        return
+    import json
+    import os
+    import pickle
+    import subprocess
+    import sys
+    import tempfile
+
+    from .common import VERIF
+
+    pending, _C20_PENDING = _C20_PENDING, []
+    d = tempfile.mkdtemp(prefix="labrea-verif-c20-")
+    try:
+        inp, outp = os.path.join(d, "in.pkl"), os.path.join(d, "out.json")
+        with open(inp, "wb") as f:
+            pickle.dump([(i, blob, dicts) for i, (cs, blob, dicts, ref, out) in enumerate(pending)], f)
+        env = dict(os.environ)
+        r = subprocess.run([sys.executable, "-m", "harness.pickle_child", inp, outp], cwd=VERIF, env=env,
+                           capture_output=True, text=True, timeout=600)
+        if r.returncode != 0:
+            for cs, blob, dicts, ref, out in pending:
+                out[id(cs[0])].bad("fresh-process", "the child interpreter failed: %s" % r.stderr[-300:])
+            return
+        for item in json.load(open(outp)):
+            cs, blob, dicts, ref, out = pending[item["id"]]
+            if "load_error" in item:
+                out[id(cs[0])].bad("fresh-process-load", "unpickling in a fresh interpreter failed: %s" % item["load_error"])
+                continue
+            for c, (e0, k0), got in zip(cs, ref, item["res"]):
+                if got["eval"] != e0:
+                    out[id(c)].bad("fresh-process-evaluate", "in a fresh interpreter the copy gives %s, the original %s" % (got["eval"], e0))
+                if got["keys"] != k0:
+                    out[id(c)].bad("fresh-process-keys", "in a fresh interpreter keys() = %s, original %s" % (got["keys"], k0))
+    finally:
+        import shutil
+
+        shutil.rmtree(d, ignore_errors=True)
+
+
 # -- C07 ---------------------------------------------------------------------------------------
 def judge_c07(case, lab):
     """One history: overloads registered before and between calls on one long-lived graph.  Each
@@ -824,7 +1065,7 @@ TIER = ["quick"]
 JUDGES = {"C04": judge_c04, "C09": judge_c09, "C05": judge_c05, "C10": judge_c10, "C11": judge_c11,
           "C08": judge_c08, "C06": judge_c06, "C07": judge_c07}
 GROUP_JUDGES = {"C03": judge_c03_group, "C01": judge_c01_group, "C02": judge_c02_group, "C12": judge_c12_group,
-                "C16": judge_c16_group}
+                "C16": judge_c16_group, "C19": judge_c19_group, "C20": judge_c20_group}
 
 
 def ill_typed(case):
